@@ -75,6 +75,15 @@ class AffinityMonitor(Monitor):
             if start:
                 if routing_key != self.shared and routing_key != self.inst_queue(node):
                     self.add(PROP, "start-event-queue", "start event of %s published by %s to %r" % (arn, node, routing_key))
+                kid = arn.split(":")[6] if arn.count(":") >= 7 else ""
+                if kid in ("kid-sync", "kid-sync2", "kid-sdk") and routing_key != self.inst_queue(node):
+                    # the launching Task waits for this child: it has to run on the instance that holds that Task
+                    self.add(PROP, "sync-child-start-queue", "start event of the synchronous child %s published by %s to "
+                                                              "%r, its own queue is %r" % (arn, node, routing_key,
+                                                                                           self.inst_queue(node)))
+                if kid == "kid-async" and routing_key != self.shared:
+                    self.add(PROP, "async-child-start-queue", "start event of the asynchronous child %s published to %r, "
+                                                               "not the shared queue" % (arn, routing_key))
             else:
                 own = self.owner.get(arn)
                 if own is None:
@@ -126,6 +135,10 @@ class AffinityMonitor(Monitor):
                         i["arn"], own, node, kw["queue"]))
                 if kw["queue"] == self.shared:
                     self.add(PROP, "later-event-on-shared-queue", "event of %s delivered through the shared queue" % i["arn"])
+        elif name == "ack_frame" and node is not None and kw.get("covered", 0) > 1:
+            self.add(PROP, "ack-covers-other-deliveries", "%s sent Basic.Ack(delivery_tag=%s, multiple=True) with %d "
+                                                            "deliveries outstanding on its channel: all of them are settled" % (
+                                                                node, kw.get("tag"), kw["covered"]))
         elif name == "basic_consume" and node is not None:
             q = kw["queue"]
             if q == self.shared and kw["exclusive"]:
@@ -173,14 +186,20 @@ def affinity_case(i, tier):
             name = rng.choice(sorted(corpus.NESTED))
             c = corpus.NESTED[name]
         else:
-            form = rng.choice(["startExecution", "startExecution.sync:2"])
-            name = "launch-" + form.replace(":", "").replace(".", "")
-            c = dict(definition={"StartAt": "L", "States": {"L": {"Type": "Task", "Resource": "arn:aws:states:local::states:" + form,
-                                                                  "Parameters": {"StateMachineArn": E.SM_ARN % "kid", "Input": {"v.$": "$.v"}},
+            form = rng.choice(["startExecution", "startExecution.sync", "startExecution.sync:2", "sdk-startSyncExecution"])
+            kid = "kid-" + {"startExecution": "async", "startExecution.sync": "sync", "startExecution.sync:2": "sync2",
+                            "sdk-startSyncExecution": "sdk"}[form]
+            name = "launch-" + kid
+            resource = "arn:aws:states:local::aws-sdk:sfn:startSyncExecution" if kid == "kid-sdk" else \
+                "arn:aws:states:local::states:" + form
+            c = dict(definition={"StartAt": "L", "States": {"L": {"Type": "Task", "Resource": resource,
+                                                                  "Parameters": {"StateMachineArn": E.SM_ARN % kid, "Input": {"v.$": "$.v"}},
                                                                   "End": True}}},
                      input={"v": k}, script={})
-            machines["kid"] = {"definition": {"StartAt": "T", "States": {"T": {"Type": "Task", "Resource": F + "kidwork",
-                                                                               "End": True}}}, "type": "STANDARD"}
+            machines[kid] = {"definition": {"StartAt": "T", "States": {"T": {"Type": "Task", "Resource": F + "kidwork",
+                                                                             "End": True}}},
+                             "type": "EXPRESS" if kid == "kid-sdk" else rng.choice(["STANDARD", "EXPRESS"])
+                             if kid not in machines else machines[kid]["type"]}
             script["kidwork"] = [{"ok": {"op": "tag"}, "delay": 1.0}]
         mname = "m%d" % k
         renamed = E.rename_functions({"definition": c["definition"], "script": c["script"], "input": c["input"],
@@ -194,6 +213,10 @@ def affinity_case(i, tier):
     cfg.update(nodes=nodes, transport=transport, queue_type=qtype, execution_ttl=600, initial_store=store_json(machines))
     scn = {"machines": {}, "executions": execs, "script": script, "functions": sorted(script), "config": cfg,
            "preloaded": {k: v for k, v in machines.items()}}
+    # uninterpretable messages arriving on the shared queue or on an instance's own queue while executions are held
+    scn["poison"] = [{"at": rng.choice([0.3, 0.8, 1.2, 2.5]), "body": rng.choice(["not json", "", "5", '{"context": 5}', "[]"]),
+                      "to": rng.choice(["shared", "instance"]), "node": rng.randint(0, nodes - 1)}
+                     for _ in range(rng.choice([0, 0, 1, 2]))]
     return seed, scn
 
 
@@ -217,6 +240,15 @@ def check_affinity(scn, seed):
             n.boot()
             state["twin"] = n
         res.sim.call_at(res.sim.now + 2.0, twin, None, kind="client", label="twin")
+        if scn.get("poison"):
+            from lsfsim.peers import NativeChannel, Props
+            pch = NativeChannel(res.sim, "poisoner")
+            for k, p in enumerate(scn["poison"]):
+                def pub(p=p, k=k):
+                    q = mon.shared if p["to"] == "shared" else mon.inst_queue("n%d" % p["node"])
+                    res.sim.broker.basic_publish(pch.rec, "", q, p["body"].encode(),
+                                                 Props(content_type="application/json", message_id="poison-%d" % k))
+                res.sim.call_at(res.sim.now + p["at"], pub, None, kind="client", label="poison")
     res = run_scenario(scn2, seed, monitors=[mon, nm], before_run=before, horizon=1500)
     findings = [f for f in res.findings if f["property"] == PROP and f["rule"] not in ("running-twice",)]
     tw = state.get("twin")
@@ -231,11 +263,21 @@ def check_affinity(scn, seed):
         if twin_deliveries:
             findings.append({"property": PROP, "rule": "second-instance-received-instance-events", "witness": None,
                              "detail": "%d deliveries" % len(twin_deliveries)})
+    terms = res.world.terminal_events()
+    for ex in scn["executions"]:
+        fam = scn["preloaded"][ex["machine"]].get("family") or ""
+        if fam.startswith("launch-kid-"):
+            evs = terms.get(E.EX_ARN % (ex["machine"], ex["name"]), [])
+            st = evs[0]["body"]["detail"]["status"] if evs else None
+            if st != "SUCCEEDED":
+                findings.append({"property": PROP, "rule": "child-launch-not-completed", "witness": fam,
+                                 "detail": "%s (%s) ended %r: the child's completion did not reach the instance that "
+                                           "holds the launching Task" % (ex["name"], fam, st)})
     if any(n.dead for n in res.world.nodes):
         findings.append({"property": PROP, "rule": "engine-died", "witness": None,
                          "detail": "an instance stopped: %r" % ([n.name for n in res.world.nodes if n.dead],)})
     probes = {"nodes:%d" % scn["config"]["nodes"]: 1, "transport:" + scn["config"]["transport"]: 1, "queue:" + qtype: 1,
-              "event-deliveries-checked": mon.deliveries, "task-requests-checked": mon.requests,
+              "poison-messages": len(scn.get("poison") or []), "event-deliveries-checked": mon.deliveries, "task-requests-checked": mon.requests,
               "owners": len(set(mon.owner.values()))}
     if res.sim.errors:
         findings.append({"property": PROP, "rule": "engine-exception", "witness": None, "detail": repr(res.sim.errors[0][:3])})
